@@ -79,6 +79,11 @@ func (vc VisitorContext) Visit(node jet.Node) {
 		vc.visitIndexExprNode(node)
 	case *jet.SliceExprNode:
 		vc.visitSliceExprNode(node)
+	case *jet.TryNode:
+		vc.visitTryNode(node)
+	case *jet.ReturnNode:
+		vc.visitReturnNode(node)
+	case *jet.UnderscoreNode:
 	case *jet.TextNode:
 	case *jet.IdentifierNode:
 	case *jet.StringNode:
@@ -97,6 +102,22 @@ func (vc VisitorContext) visitIncludeNode(includeNode *jet.IncludeNode) {
 	if includeNode.Context != nil {
 		vc.visitNode(includeNode.Context)
 	}
+}
+
+func (vc VisitorContext) visitTryNode(tryNode *jet.TryNode) {
+	vc.visitNode(tryNode.List)
+	if tryNode.Catch != nil {
+		if tryNode.Catch.Err != nil {
+			vc.visitNode(tryNode.Catch.Err)
+		}
+		if tryNode.Catch.List != nil {
+			vc.visitNode(tryNode.Catch.List)
+		}
+	}
+}
+
+func (vc VisitorContext) visitReturnNode(returnNode *jet.ReturnNode) {
+	vc.visitNode(returnNode.Value)
 }
 
 func (vc VisitorContext) visitBlockNode(blockNode *jet.BlockNode) {
